@@ -627,19 +627,32 @@ func truncLogCase(w *W, idx, k int) {
 	delivered := map[int]int{}
 	for _, off := range offs {
 		var got [][]byte
+		reused := false
 		o := guarded(func() restoreOutcome {
 			got = got[:0]
-			err := commit.Open(bytes.NewReader(data[:off])).Range(func(c commit.Commit) error {
+			reused = false
+			lgx := commit.Open(bytes.NewReader(data[:off]))
+			err := lgx.Range(func(c commit.Commit) error {
 				var b bytes.Buffer
 				c.WriteTo(&b)
 				got = append(got, b.Bytes())
 				return nil
 			})
+			// the Log object is still usable afterwards, whatever Range returned (here: ranging it once more;
+			// the reader is exhausted, nothing more may be delivered)
+			reused = true
+			extra := 0
+			lgx.Range(func(commit.Commit) error { extra++; return nil })
+			if extra > 0 && err == nil {
+				err = fmt.Errorf("a second Range over the exhausted reader delivered %d more commits", extra)
+			}
 			return restoreOutcome{err: err}
 		})
 		w.Stat("truncated_log_ranges", 1)
 		bad := ""
 		switch {
+		case o.hung && reused:
+			bad = fmt.Sprintf("Range returned after %d commits, but a second Range on the same Log hangs (a lock was left held)", len(got))
 		case o.hung:
 			bad = "Range hangs"
 		case o.panic != "":
